@@ -176,8 +176,8 @@ void h13_binary(void) {
   thrift_write_binary(&g_enc, payload, len);
   __CPROVER_assert(g_enc.status == CARQUET_OK && g_buf.size == 1 + (size_t)len && store[0] == (uint8_t)len, "length byte then the payload");
   unsigned k = nondet_unsigned();
-  __CPROVER_assume(k < (unsigned)len);
-  __CPROVER_assert(store[1 + k] == payload[k], "payload byte k is sent as is");
+  __CPROVER_assume(k < 16 && (len == 0 || k < (unsigned)len));
+  __CPROVER_assert(len == 0 || store[1 + k] == payload[k], "payload byte k is sent as is");
   thrift_decoder_init(&g_dec, store, g_buf.size);
   int32_t rl;
   const uint8_t *p = thrift_read_binary(&g_dec, &rl);
@@ -233,10 +233,14 @@ void h13_uuid(void) {
 
 /* ---- field header: all (last_id, field_id, type, nesting level) ---- */
 static int g_nl; static int16_t g_last, g_fid; static int g_type;
-static void field_header_common(void) {
-  g_nl = nondet_int(); g_last = (int16_t)nondet_u16(); g_fid = (int16_t)nondet_u16(); g_type = nondet_int();
+static void field_header_common(int nl, int16_t last, int16_t fid, int type) {
+  g_nl = nl; g_last = last; g_fid = fid; g_type = type;
   __CPROVER_assume(g_nl >= 0 && g_nl <= THRIFT_ENCODER_MAX_NESTING);
   __CPROVER_assume(g_type >= 1 && g_type <= 15);
+#ifdef CQV_NOWRAP
+  /* scoped lemma: pairs whose difference is representable in int16 */
+  __CPROVER_assume((int)fid - (int)last >= INT16_MIN && (int)fid - (int)last <= INT16_MAX);
+#endif
   mk_enc();
   g_enc.nesting_level = g_nl;
   if (g_nl > 0) g_enc.last_field_id[g_nl - 1] = g_last; else g_last = 0; /* outside any struct the previous id is 0 */
@@ -245,7 +249,9 @@ static void field_header_common(void) {
 /* round trip: the reader in the same state returns the same (type, id), consumes what was produced,
  * and both sides remember the same last field id */
 void h13_field_header_roundtrip(void) {
-  field_header_common();
+  int nl = nondet_int(), type = nondet_int();
+  int16_t last = (int16_t)nondet_u16(), fid = (int16_t)nondet_u16();
+  field_header_common(nl, last, fid, type);
   __CPROVER_assert(g_enc.status == CARQUET_OK && g_buf.size >= 1 && g_buf.size <= 4, "header is 1..4 bytes");
   __CPROVER_assert(g_nl == 0 || g_enc.last_field_id[g_nl - 1] == g_fid, "writer remembers the id");
   thrift_decoder_init(&g_dec, store, g_buf.size);
@@ -269,7 +275,9 @@ void h13_field_header_roundtrip(void) {
 /* genuine compact protocol: short form exactly when 1 <= field_id - last_id <= 15 (integers, no wrap),
  * nibble layout dddd tttt; long form 0000 tttt + zigzag varint id */
 void h13_field_header_form(void) {
-  field_header_common();
+  int nl = nondet_int(), type = nondet_int();
+  int16_t last = (int16_t)nondet_u16(), fid = (int16_t)nondet_u16();
+  field_header_common(nl, last, fid, type);
   int shortf = spec_field_short(g_last, g_fid);
   __CPROVER_assert(store[0] == spec_field_byte0(g_last, g_fid, g_type), "first byte: delta nibble (or 0) and type nibble per spec");
   if (shortf) {
@@ -284,10 +292,15 @@ void h13_field_header_form(void) {
 /* struct end = STOP byte 0; reader sees STOP and consumes it; nesting balanced */
 void h13_struct(void) {
   int nl = nondet_int();
-  __CPROVER_assume(nl >= 0 && nl < THRIFT_ENCODER_MAX_NESTING);
+  __CPROVER_assume(nl >= 0 && nl <= THRIFT_ENCODER_MAX_NESTING);
   mk_enc();
   g_enc.nesting_level = nl;
   thrift_write_struct_begin(&g_enc);
+  if (nl == THRIFT_ENCODER_MAX_NESTING) {
+    __CPROVER_assert(g_enc.status != CARQUET_OK && g_enc.nesting_level == nl, "nesting beyond the limit is an error, nothing indexed");
+    CQV_CANARY("writer nesting limit");
+    return;
+  }
   __CPROVER_assert(g_enc.status == CARQUET_OK && g_enc.nesting_level == nl + 1 && g_enc.last_field_id[nl] == 0 && g_buf.size == 0, "struct begin writes nothing, resets last id");
   thrift_write_struct_end(&g_enc);
   __CPROVER_assert(g_enc.status == CARQUET_OK && g_enc.nesting_level == nl && g_buf.size == 1 && store[0] == 0, "struct end writes STOP");
